@@ -181,3 +181,51 @@ def c14_wf(h):
                 return {"reproduced": True, "call": "Scalar(%r)" % c, "observed": repr(e), "expected": "constructs"}
         return {"reproduced": not ok, "call": "categories[%r]" % c, "observed": [ci.quantity_type, ci.default_unit, ci.valid_units], "expected": "W3"}
     return {"reproduced": False}
+
+
+# ------------------------------------------------------------------------------------------------
+# value-object pools (instantiation of abstract names from the real database)
+
+
+def pool_scalars():
+    from barril.units import Scalar
+
+    m = Scalar(2.0, "m")
+    s = Scalar(4.0, "s")
+    out = {
+        "simple": [Scalar(1.5, "m"), Scalar(250.0, "cm", "depth"), Scalar(20.0, "degC"), Scalar(3.0, "psi")],
+        "derived1": [m * m, m * m * m, Scalar(1.0, "m") / s / s],
+        "derived2": [m / s, m * s, Scalar(3.0, "kg") / (m * m * m)],
+    }
+    return out
+
+
+def other_units(q):
+    db = q.GetUnitDatabase()
+    try:
+        return [u for u in db.GetUnits(q.GetQuantityType()) if u != q.GetUnit()][:4]
+    except Exception:
+        return []
+
+
+@probe("scalar_getvalue")
+def scalar_getvalue(h):
+    """C02: value in own unit is the stored value; value in another unit equals db.Convert"""
+    pools = pool_scalars()
+    kinds = [h.get("variant", ["simple"])[0]] if h.get("variant") else list(pools)
+    for k in kinds + [x for x in pools if x not in kinds]:
+        for s in pools[k]:
+            try:
+                r = s.GetValue(s.GetUnit())
+                if r != s.GetValue():
+                    return {"reproduced": True, "call": "%r.GetValue(%r)" % (s, s.GetUnit()), "observed": r, "expected": s.GetValue()}
+            except Exception as e:
+                return {"reproduced": True, "call": "%r.GetValue(%r)" % (s, s.GetUnit()), "observed": repr(e), "expected": s.GetValue()}
+            if k == "simple":
+                db = s.GetUnitDatabase()
+                for u in other_units(s.GetQuantity()):
+                    exp = db.Convert(s.GetQuantityType(), s.GetUnit(), u, s.GetValue())
+                    got = s.GetValue(u)
+                    if got != exp:
+                        return {"reproduced": True, "call": "%r.GetValue(%r)" % (s, u), "observed": got, "expected": exp}
+    return {"reproduced": False}
